@@ -73,6 +73,7 @@ CheckJitter(e) ==
      /\ Bump(RJitReordered, IF \E i \in 1..Len(out) : out[i].src # i THEN 1 ELSE 0)
   \* equal seeds give equal files; (different seeds may differ)
   /\ Flag(e, "C20.Jitter.Reproducible", e.same_again, "second run with the same seed differs")
+  /\ Flag(e, "C20.Jitter.ReproducibleAcrossProcesses", e.same_cross, "the same seed in another interpreter (different string hashing) gives a different file")
 
 CheckSample(e) ==
   /\ Bump(RTraces, 1) /\ Bump(RSamples, Len(e.samples))
